@@ -22,7 +22,7 @@ QMAX == <<255, 255, 255, 255>>
 QIds == { Q(0), Q(63), Q(64), Q(16383), Q(16384), <<255,255,255,63>>, <<0,0,0,64>>, QMAX }
 Rep(c, n) == [i \in 1..n |-> c]
 InnerLens == {63, 255, 256, 257}      \* around the 1->2 byte compact prefix and the u8 boundary
-BigInner == {n \in BigLens : n <= 1100}  \* inner sequences take the smallest big length only (evaluation cost is superlinear)
+BigInner == BigLens                      \* tuple members and docs take the big lengths too
 S0 == <<>>  Sa == <<97>>  S64 == Rep(120, 64)  Se == <<195, 169>>  S4 == <<240, 159, 152, 128>>
 Strs == {S0, Sa, S64, Se, S4}
 OptStrs == {<<>>, <<S0>>, <<Sa>>, <<S64>>}
